@@ -43,6 +43,29 @@ def units(rng, tier):
             us += group(rng, C, vals, "exhaustive-multisets")
     for C, vals in HISTORIC:
         us += group(rng, C, vals, "historic")
+    # the search is only as good as its bounds: (1) the bound used for both early exits must never exceed the optimum
+    # (judged directly on bin_completion_utils.lower_bound, with exact halves and thirds of the bin size well represented);
+    for _ in range(700 if tier == "quick" else 8000):
+        C = rng.choice([6, 10, 12, 20, 30, 50, 100])
+        cands = [C // 2, C // 2, C // 3, C // 2 + 1, max(1, C // 2 - 1), C, 1, 2, (2 * C) // 3, max(1, C // 4)] + [rng.randint(1, C) for _ in range(4)]
+        vals = [rng.choice(cands) for _ in range(rng.randint(2, 10))]
+        us.append({"kind": "bc_util", "params": {"fn": "lb", "C": C, "items": vals, "vals": vals}, "cmp": None, "family": "lower-bound-admissible", "group": 0})
+    # (2) inputs on which best-fit-decreasing is NOT optimal, found by screening random instances with the model: here the answer
+    # depends on the search, its dominance tests and its bounds really being right
+    from harness import runner
+    cand = []
+    for _ in range(12000 if tier == "quick" else 150000):
+        C = rng.choice([10, 12, 20, 30, 50])
+        pool = [C // 2, C // 2, C // 3] + [rng.randint(1, C) for _ in range(rng.randint(2, 5))]
+        cand.append((C, [max(1, rng.choice(pool)) for _ in range(rng.randint(5, 10))]))
+    lines = []
+    for C, v in cand:
+        lines.append(runner.model_line("bfd", [0, C, v, v]))
+        lines.append(runner.model_line("min_bins", [C, v]))
+    res = runner.run_model(lines)
+    hard = [cv for i, cv in enumerate(cand) if isinstance(res[2 * i], dict) and "ok" in res[2 * i] and len(res[2 * i]["ok"]) > res[2 * i + 1]]
+    for C, v in hard[:400 if tier == "quick" else 4000]:
+        us += group(rng, C, v, "bfd-suboptimal(screened)")
     for _ in range(220 if tier == "quick" else 3000):
         C, vals, fam = gen.packing_instance(rng, nmax=11, family=rng.choice([None, None, "perfect", "thresholds"]))
         vals = [v for v in vals if v >= 1][:11]
@@ -64,6 +87,11 @@ def count_of(impl):
 
 def judge_requests(u, impl, model):
     p = u["params"]
+    if u["kind"] == "bc_util":
+        if "exc" in impl:
+            return [("py", None, f"lower_bound({p['C']}, {p['items']}) raised {impl['exc']}")]
+        lb = impl["num"]
+        return [("min_bins", [p["C"], p["items"]], lambda r: None if lb <= r else f"bin completion's lower bound is not admissible: lower_bound(binsize={p['C']}, items={p['items']}) = {lb} but the items fit into {r} bins, so the search stops at a non-optimal packing")]
     desc = f"bin_completion(binsize={p['C']}, items={p['vals']}, output {p['out']})"
     if "exc" in impl:
         return [("py", None, f"{desc} did not complete: {impl['exc']}")]
@@ -80,7 +108,8 @@ def extra_checks(rng, tier, us, oc):
     out = []
     groups = {}
     for i, u in enumerate(us):
-        groups.setdefault(u["group"], []).append(i)
+        if u["kind"] == "pack":
+            groups.setdefault(u["group"], []).append(i)
     for g, idx in groups.items():
         if any("exc" in oc.impl[i] for i in idx):
             continue
@@ -92,6 +121,8 @@ def extra_checks(rng, tier, us, oc):
 
 
 def nontrivial(u, impl, model):
+    if u["kind"] == "bc_util":
+        return len(u["params"]["items"]) >= 4
     return len(u["params"]["vals"]) >= 4 and (count_of(impl) or 0) >= 2
 
 
